@@ -23,7 +23,7 @@ def analyse():
             tree = ast.parse(open(os.path.join(dp, f)).read())
             for node in tree.body:
                 if isinstance(node, ast.ClassDef):
-                    c = classes.setdefault(node.name, {"bases": [], "methods": {}, "ann": {}, "file": os.path.relpath(os.path.join(dp, f), "/repo")})
+                    c = classes.setdefault(node.name, {"bases": [], "methods": {}, "ann": {}, "file": os.path.relpath(os.path.join(dp, f), os.path.dirname(ROOT))})
                     c["bases"] = [b.id for b in node.bases if isinstance(b, ast.Name)]
                     for it in node.body:
                         if isinstance(it, (ast.FunctionDef,)):
